@@ -7,6 +7,7 @@ import (
 	"strings"
 
 	"github.com/ogen-go/ogen"
+	"github.com/ogen-go/ogen/gen"
 	ogenjson "github.com/ogen-go/ogen/json"
 	"github.com/ogen-go/ogen/jsonpointer"
 	"github.com/ogen-go/ogen/jsonschema"
@@ -403,6 +404,7 @@ func c18(r *lp.Run) {
 	c18NumberGrid(r, g)
 	c18Malformed(r, g)
 	c18Enum(r, g)
+	c18Reduce(r, g)
 }
 
 func c18Pair(r *lp.Run, g *jgen, a, b *J, mode string) {
@@ -620,6 +622,93 @@ func c18Enum(r *lp.Run, g *jgen) {
 		}
 		if gotRaw != want {
 			r.Fail(lp.PropFail{Property: "C18", What: "enum duplicate detection (RawSchema handed to jsonschema.Parser) differs from 'two members are the same value'", Input: map[string]string{"enum": "[" + strings.Join(parts, ",") + "]"}, Observed: gotRaw, Expected: want})
+		}
+	}
+}
+
+// default responses are compared when they are reduced to one convenient error (gen/reduce.go): two
+// operations whose default responses differ only in the spelling of a numeric bound are reduced, two whose
+// bounds are different numbers are not. With convenient errors forced the generator refuses a document
+// exactly when the responses differ, which makes the comparison observable: the spec is built as an
+// *ogen.Spec value (no YAML front end between the number texts and the comparison).
+func c18Reduce(r *lp.Run, g *jgen) {
+	n := r.N(250, 6000)
+	mk := func(kw, x string) *ogen.Schema {
+		s := &ogen.Schema{Type: "object", Properties: []ogen.Property{{Name: "v", Schema: &ogen.Schema{Type: "number"}}}}
+		switch kw {
+		case "maximum":
+			s.Properties[0].Schema.Maximum = ogen.Num(x)
+		case "minimum":
+			s.Properties[0].Schema.Minimum = ogen.Num(x)
+		default:
+			s.Properties[0].Schema.MultipleOf = ogen.Num(x)
+		}
+		return s
+	}
+	op := func(id string, s *ogen.Schema) *ogen.PathItem {
+		return &ogen.PathItem{Get: &ogen.Operation{OperationID: id, Responses: ogen.Responses{
+			"200":     &ogen.Response{Description: "ok"},
+			"default": &ogen.Response{Description: "e", Content: map[string]ogen.Media{"application/json": {Schema: s}}},
+		}}}
+	}
+	fixed := [][2]string{{"9007199254740993", "9007199254740992"}, {"9223372036854775807", "9223372036854775806"}, {"1e400", "10e399"}, {"1e400", "1e401"},
+		{"0.1", "0.10000000000000000001"}, {"1", "1.0"}, {"1e0", "1"}, {"100", "1E2"}, {"0.5", "5e-1"}, {"123456789012345678901234567890", "123456789012345678901234567891"},
+		{"1e-400", "1e-401"}, {"2e-400", "20e-401"}, {"-0", "0"}, {"18446744073709551616", "18446744073709551615"}, {"4503599627370497.5", "4503599627370497.50"}}
+	for i := 0; i < n+len(fixed); i++ {
+		var x, y string
+		if i < len(fixed) {
+			x, y = fixed[i][0], fixed[i][1]
+		} else {
+			a := &J{kind: "num", raw: g.num()}
+			var b *J
+			switch g.r.Intn(3) {
+			case 0:
+				b = g.respell(a)
+			case 1:
+				b = g.mutate(g.respell(a))
+			default:
+				b = &J{kind: "num", raw: g.num()}
+			}
+			if b.kind != "num" {
+				continue
+			}
+			x, y = a.raw, b.raw
+		}
+		kw := []string{"maximum", "minimum", "multipleOf"}[i%3]
+		if kw == "multipleOf" && (refNum(x).Sign() <= 0 || refNum(y).Sign() <= 0) {
+			kw = "maximum"
+		}
+		run := func(x, y string) string {
+			return lp.Guard(func() string {
+				spec := &ogen.Spec{OpenAPI: "3.0.3", Info: ogen.Info{Title: "t", Version: "1"}, Paths: ogen.Paths{"/a": op("a", mk(kw, x)), "/b": op("b", mk(kw, y))}}
+				_, err := gen.NewGenerator(spec, gen.Options{Generator: gen.GenerateOptions{ConvenientErrors: gen.ConvenientErrors(1)}})
+				switch {
+				case err == nil:
+					return "reduced"
+				case strings.Contains(err.Error(), "response is different"):
+					return "different"
+				default:
+					return "other:" + err.Error()
+				}
+			})
+		}
+		got := run(x, y)
+		if strings.HasPrefix(got, "other:") {
+			// a bound the generator cannot express (out of range for the validator): not a comparison outcome
+			r.Count("reduce "+kw+" "+x+" "+y, "reduce:other", false)
+			continue
+		}
+		r.Case("jeq", fmt.Sprintf("#%x #%x", x, y), map[string]string{"reduced": "true", "different": "false"}[got], "reduce:"+got, x != y)
+		r.PropCheck()
+		want := "different"
+		if refNum(x).Cmp(refNum(y)) == 0 {
+			want = "reduced"
+		}
+		if got != want {
+			r.Fail(lp.PropFail{Property: "C18", What: "default responses that differ only in a numeric bound are compared by something other than the value of the bound (convenient-error reduction)", Input: map[string]string{"keyword": kw, "a": x, "b": y}, Observed: got, Expected: want})
+		}
+		if back := run(y, x); back != got && !strings.HasPrefix(back, "other:") {
+			r.Fail(lp.PropFail{Property: "C18", What: "the comparison of default responses is not symmetric", Input: map[string]string{"keyword": kw, "a": x, "b": y}, Observed: got + " / " + back, Expected: "same answer"})
 		}
 	}
 }
